@@ -2,3 +2,4 @@ pub mod headermap;
 pub mod payload;
 pub mod h1;
 pub mod ws;
+pub mod multipart;
